@@ -74,7 +74,7 @@ def run(tier, runner):
     r_var = variant_alt(progs)
     r_is = sets.iter_state(progs)
     r_is.require(4, 'iterator-returning modifiers')
-    r_alt.require(4, 'iterator-returning removals')
+    r_alt.require(2, 'iterator-returning removals')
     r_sib.require(8, 'begin/end/rbegin/rend/find/size ...')
     r_var.require(8, 'alternative accesses')
     r_np = sets.node_pos(progs)
